@@ -14,12 +14,15 @@ list, every `Tables` (= every variant of the two operand switches and of `findCa
                      ordered: (nomain,noinit) ⊆ (nomain) , (noinit) ⊆ (default);
 * `reach_subset_all` contained in AllFunctions;
 * `reach_sound`      contains the RTA-style execution semantics `Exec` GIVEN `OperandTableComplete T`
-                     (a decidable obligation over the regenerated table, FALSE today: `Defer`/`Go` arguments are
-                     not visited — F8) and `NoInterfaceWidening P`;
+                     (a decidable obligation; it was FALSE before repository commit 3c101cd — `Defer`/`Go`
+                     arguments not visited, F8 — and HOLDS for the regenerated table now:
+                     `gen_operand_table_complete`, `reach_sound_current`) and `NoInterfaceWidening P`;
 * `exec_subset_of_stable` + `sound_of_criterion`   the per-program criterion the oracle evaluates on every
                      dumped program (no hypothesis on the tables);
-* negation witnesses `pinned_unsound_defer_arg`, `pinned_unsound_go_arg`, `pinned_unsound_widening`
-                     (replayed on the real tool: corpus/findings/F08_reach_defer_go_args);
+* negation witnesses: `old_table_incomplete`, `old_unsound_defer_arg`, `old_unsound_go_arg` about the table
+                     of the code BEFORE the repair (kept as a literal; the corpus inputs are regression cases now),
+                     `pinned_unsound_widening` about the current one (open finding; replayed on the real tool:
+                     corpus/findings/F08_reach_defer_go_args/widening);
 * `gen_known`, `gen_covers_pinned`   obligations over the regenerated table.
 -/
 import Argot.Proofs.Reach
@@ -136,7 +139,7 @@ theorem sound_of_criterion (T : Tables) (P : Prog) (roots E : List Nat) (hs : st
     (hsub : ∀ g ∈ E, g ∈ closure T P roots) : ∀ g, Exec P roots g → g ∈ closure T P roots :=
   fun g hg => hsub g (exec_subset_of_stable P roots E hs g hg)
 
-/-! ### negation witnesses for the pinned tables (F8) -/
+/-! ### negation witnesses (F8): the table before the repair, and interface widening -/
 
 /-- `func main() { defer run(cb) }` : 0 = main, 1 = run, 2 = cb (only mentioned as the argument) -/
 def witnessArg (kind : String) : Prog :=
@@ -147,25 +150,27 @@ def witnessArg (kind : String) : Prog :=
              { name := "cb", hasPkg := true, pkgName := "main", anon := [], instrs := [] } ],
     types := [] }
 
-theorem pinned_table_incomplete : ¬ OperandTableComplete pinnedTables := by decide
+theorem old_table_incomplete : ¬ OperandTableComplete oldTables := by decide
 
 /-- **F8, deferred call**: the callback executes (`Exec`) but is not in the computed set. -/
-theorem pinned_unsound_defer_arg :
+theorem old_unsound_defer_arg :
     wf (witnessArg "Defer") = true ∧ Exec (witnessArg "Defer") [0] 2 ∧
-    2 ∉ closure pinnedTables (witnessArg "Defer") [0] := by
+    2 ∉ closure oldTables (witnessArg "Defer") [0] := by
   refine ⟨by decide, ?_, by decide⟩
   exact Exec.ref (Exec.root List.mem_cons_self) (by decide)
 
 /-- **F8, go statement**: same for `go run(cb)`. -/
-theorem pinned_unsound_go_arg :
+theorem old_unsound_go_arg :
     wf (witnessArg "Go") = true ∧ Exec (witnessArg "Go") [0] 2 ∧
-    2 ∉ closure pinnedTables (witnessArg "Go") [0] := by
+    2 ∉ closure oldTables (witnessArg "Go") [0] := by
   refine ⟨by decide, ?_, by decide⟩
   exact Exec.ref (Exec.root List.mem_cons_self) (by decide)
 
 /-- with the arguments of Defer and Go visited, the table is complete -/
-theorem fixed_table_complete :
-    OperandTableComplete { pinnedTables with instrOps := ("Defer", "Args") :: ("Go", "Args") :: pinnedInstrOps } := by
+theorem fixed_table_complete : OperandTableComplete pinnedTables := by decide
+
+/-- … and the repaired code computes the callback of the two witnesses -/
+example : 2 ∈ closure pinnedTables (witnessArg "Defer") [0] ∧ 2 ∈ closure pinnedTables (witnessArg "Go") [0] := by
   decide
 
 /-- `var s Small = T{}; s.(Big).B()` : 0 = main, 1 = (T).A, 2 = (T).B; type 0 = Small{A}, type 1 = Big{A,B} -/
@@ -184,7 +189,7 @@ def witnessWiden : Prog :=
 set — even with a complete operand table. -/
 theorem pinned_unsound_widening :
     wf witnessWiden = true ∧ Exec witnessWiden [0] 2 ∧
-    2 ∉ closure { pinnedTables with instrOps := ("Defer", "Args") :: ("Go", "Args") :: pinnedInstrOps } witnessWiden [0] := by
+    2 ∉ closure pinnedTables witnessWiden [0] := by
   refine ⟨by decide, ?_, by decide⟩
   exact Exec.invoke (f := 0) (f' := 0) (ins := { kind := "Call", ops := [("Value", .instr 1)], call := some ⟨true, "B", ["A", "B"]⟩ })
     (ins' := { kind := "MakeInterface", ops := [("X", .other)], conv := some ⟨0, [("A", 1), ("B", 2)]⟩ })
@@ -197,8 +202,18 @@ theorem pinned_unsound_widening :
 /-- every guard path of the current source is one the model interprets -/
 theorem gen_known : genKnown = true := by decide +kernel
 
-/-- everything visited / handled at the pinned commit still is -/
+/-- everything visited / handled by the pinned code (after the repair of F8) still is -/
 theorem gen_covers_pinned : pinnedTables.covers genTables = true := by decide +kernel
+
+/-- **the operand table of the current source is complete** (this obligation was false before 3c101cd) -/
+theorem gen_operand_table_complete : OperandTableComplete genTables := by decide +kernel
+
+/-- what is proved for the code as it is now: soundness w.r.t. `Exec` for every program without
+interface-to-interface widening -/
+theorem reach_sound_current (P : Prog) (hw : wf P = true) (roots : List Nat)
+    (hr : ∀ r ∈ roots, r < P.fns.length) (hW : NoInterfaceWidening P) :
+    ∀ g, Exec P roots g → g ∈ closure genTables P roots :=
+  reach_sound genTables P hw roots hr gen_operand_table_complete hW
 
 /-! ### non-vacuity: closures, interface dispatch, the four root selections -/
 
@@ -238,12 +253,14 @@ example : stable exProg [0, 1] (execSet exProg [0, 1]) = true := by decide +kern
 #print axioms reach_sound
 #print axioms exec_subset_of_stable
 #print axioms sound_of_criterion
-#print axioms pinned_table_incomplete
-#print axioms pinned_unsound_defer_arg
-#print axioms pinned_unsound_go_arg
+#print axioms old_table_incomplete
+#print axioms old_unsound_defer_arg
+#print axioms old_unsound_go_arg
 #print axioms pinned_unsound_widening
 #print axioms fixed_table_complete
 #print axioms gen_known
 #print axioms gen_covers_pinned
+#print axioms gen_operand_table_complete
+#print axioms reach_sound_current
 
 end Argot.Reach
